@@ -44,25 +44,35 @@ def run_history(tid, ops, events, init_db):
         sink = io.StringIO()
         with contextlib.redirect_stdout(sink):
             if op["op"] == "add":
-                raised = False
+                raised, crashed = False, ""
                 try:
                     mgr.add_entry(op["formula"], op["smiles"])
                 except ValueError:
                     raised = True
+                except Exception as ex:
+                    raised, crashed = True, repr(ex)
                 events.append({"ev": "add", "tid": tid, "step": step, "formula": op["formula"],
-                               "smiles": op["smiles"], "valid": oracle.parse(op["smiles"]) is not None,
+                               "smiles": op["smiles"], "valid": oracle.parse(op["smiles"]) is not None, "crashed": crashed,
                                "raised": raised, "after": snap_full(mgr.database, old if not raised else len(mgr.database))})
             elif op["op"] == "bulk":
                 ents = [dict(e) for e in op["entries"]]
-                rej = mgr.add_entries([dict(e) for e in ents])
+                crashed = ""
+                try:
+                    rej = mgr.add_entries([dict(e) for e in ents])
+                except Exception as ex:
+                    rej, crashed = [], repr(ex)
                 for e in ents:
                     e["valid"] = oracle.parse(e["smiles"]) is not None
                 events.append({"ev": "bulk", "tid": tid, "step": step, "entries": ents,
-                               "rejected": [{"formula": r["formula"], "smiles": r["smiles"]} for r in rej],
-                               "after": snap_full(mgr.database, old)})
+                               "rejected": [{"formula": r["formula"], "smiles": r["smiles"]} for r in rej], "crashed": crashed,
+                               "after": snap_full(mgr.database, min(old, len(mgr.database)))})
             elif op["op"] == "remove":
-                mgr.remove_entry(op["formula"])
-                events.append({"ev": "remove", "tid": tid, "step": step, "formula": op["formula"],
+                crashed = ""
+                try:
+                    mgr.remove_entry(op["formula"])
+                except Exception as ex:
+                    crashed = repr(ex)
+                events.append({"ev": "remove", "tid": tid, "step": step, "formula": op["formula"], "crashed": crashed,
                                "after": snap(mgr.database)})
 
 
